@@ -399,10 +399,11 @@ Lemma migrate_fold_frame l : forall s0 s1,
     match acc with
     | None => None
     | Some s =>
-        let '(c, k, held) := b in
-        match get_cs s c k with
-        | None => Some s
-        | Some cs =>
+        let '(c, k, held_o) := b in
+        match get_cs s c k, held_o with
+        | None, _ => Some s
+        | Some _, None => None
+        | Some cs, Some held =>
             if held <? outstanding cs then None
             else let diff := held - outstanding cs in
                  if diff =? 0 then Some s
@@ -413,9 +414,11 @@ Lemma migrate_fold_frame l : forall s0 s1,
         end
     end) l (Some s0) = Some s1 -> same_but_cs s0 s1 /\ reply_args s1 = reply_args s0.
 Proof.
-  induction l as [|[[c k] held] r IH]; intros s0 s1; cbn [fold_left].
+  induction l as [|[[c k] held_o] r IH]; intros s0 s1; cbn [fold_left].
   - intros E. inv E. split; [repeat split|reflexivity].
   - destruct (get_cs s0 c k) as [cs|]; [|apply IH].
+    destruct held_o as [held|];
+      [|intros E; exfalso; clear IH; induction r as [|x r IHr]; cbn [fold_left] in E; [discriminate|auto]].
     destruct (held <? outstanding cs).
     + intros E. exfalso. clear IH. induction r as [|x r IHr]; cbn [fold_left] in E; [discriminate|auto].
     + cbv zeta. destruct (held - outstanding cs =? 0); [apply IH|].
